@@ -150,6 +150,17 @@ pub async fn raw_stream(conn: &quinn::Connection) -> Result<BiStream> {
     Ok(BiStream::try_from_connection(conn).await?)
 }
 
-pub fn runtime() -> tokio::runtime::Runtime {
-    tokio::runtime::Builder::new_multi_thread().worker_threads(6).enable_all().build().unwrap()
+/// the suites' runtime: dropping it does not wait for its workers — a task of the code under test that never returns from
+/// a poll (reported by the case's own time limit) must not keep the suite from finishing
+pub struct Rt(Option<tokio::runtime::Runtime>);
+impl std::ops::Deref for Rt {
+    type Target = tokio::runtime::Runtime;
+    fn deref(&self) -> &Self::Target { self.0.as_ref().unwrap() }
+}
+impl Drop for Rt {
+    fn drop(&mut self) { if let Some(r) = self.0.take() { r.shutdown_background(); } }
+}
+
+pub fn runtime() -> Rt {
+    Rt(Some(tokio::runtime::Builder::new_multi_thread().worker_threads(6).enable_all().build().unwrap()))
 }
